@@ -217,6 +217,7 @@ Definition stays (e : ev) (c : consumer) : Prop :=
   match e with
   | EvLeave id => c_id c <> id
   | EvInStop => c_kind c <> KPush
+  | EvDispose => False
   | _ => True
   end.
 
@@ -362,7 +363,7 @@ Qed.
 Lemma merge_inv_step cf s e : merge_inv cf s -> merge_inv cf (step cf s e).
 Proof.
   intros Hinv Hm0. specialize (Hinv Hm0).
-  destruct e as [m|k id|id| | |b| |v|pid|raw]; cbn [step].
+  destruct e as [m|k id|id| | |b| |v|pid|raw|]; cbn [step].
   - unfold publish. destruct (Nat.eqb _ 0); [exact Hinv|].
     rewrite rtmp_loop_spec. rewrite Hinv.
     assert (Hm1 : (if anytrig (g_rtmp_cache s) (is_video_key_nalu m) (g_subs s) then [] else @nil label) = [])
@@ -373,6 +374,7 @@ Proof.
   - destruct (partition _ _). exact Hinv.
   - destruct (g_in s); exact Hinv.
   - destruct (negb (g_in s)); [exact Hinv|]. destruct (partition _ _). exact Hinv.
+  - exact Hinv.
   - exact Hinv.
   - exact Hinv.
   - exact Hinv.
@@ -405,7 +407,7 @@ Theorem step_admitted cf s e id c :
 Proof.
   intros Hinv Hfind Hadm Hkts Hkrt Hstay.
   destruct (find_idp_some _ _ _ Hfind) as [Hin Hid].
-  destruct e as [m|k jid|lid| | |b| |v|pid|raw]; cbn [step live_units].
+  destruct e as [m|k jid|lid| | |b| |v|pid|raw|]; cbn [step live_units].
   - destruct (Nat.eqb (length (rm_payload m)) 0) eqn:Hne.
     + exists c. unfold publish. rewrite Hne. unfold find_sub. cbn [g_subs].
       repeat split; try assumption. unfold vout, pending_for. cbn [g_merge]. now rewrite app_nil_r.
@@ -462,6 +464,7 @@ Proof.
       now rewrite (rtsp_step_other _ _ _ _ c Hkrt). }
     rewrite Hf.
     repeat split; try assumption. unfold vout, pending_for. cbn [g_merge]. now rewrite app_nil_r.
+  - destruct Hstay.
 Qed.
 
 (* ------------------------------------------------------------------ *)
@@ -481,13 +484,14 @@ Fixpoint attached (id : N) (k : ckind) (h : list ev) : Prop :=
   | [] => True
   | EvLeave id' :: t => id' <> id /\ attached id k t
   | EvInStop :: t => k <> KPush /\ attached id k t
+  | EvDispose :: t => False
   | _ :: t => attached id k t
   end.
 
 Lemma g_next_step cf s e :
   g_next (step cf s e) = match e with EvPublish _ => S (g_next s) | _ => g_next s end.
 Proof.
-  destruct e as [m|k id|id| | |b| |v|pid|raw]; cbn [step].
+  destruct e as [m|k id|id| | |b| |v|pid|raw|]; cbn [step].
   - unfold publish. destruct (Nat.eqb _ 0); [reflexivity|].
     rewrite rtmp_loop_spec.
     destruct (has_kind KRtmp _); [destruct (cf_merge cf =? 0); [|destruct (cf_merge cf <=? _)]|]; reflexivity.
@@ -495,6 +499,7 @@ Proof.
   - destruct (partition _ _); reflexivity.
   - destruct (g_in s); reflexivity.
   - destruct (negb (g_in s)); [reflexivity|]. destruct (partition _ _); reflexivity.
+  - reflexivity.
   - reflexivity.
   - reflexivity.
   - reflexivity.
@@ -515,7 +520,8 @@ Proof.
     { destruct (find_idp_some _ _ _ Hfind) as [_ Hid].
       destruct e; cbn [attached stays] in *; try (split; [exact I|exact Hatt]).
       - destruct Hatt as [H1 H2]. split; [congruence|exact H2].
-      - exact Hatt. }
+      - exact Hatt.
+      - destruct Hatt. }
     destruct Hstay as [Hstay Hatt'].
     destruct (step_admitted cf s e id c Hinv Hfind Hadm Hkts Hkrt Hstay) as (c1 & Hf1 & Hk1 & Ha1 & Hv1).
     rewrite <- Hk1 in Hatt', Hkts, Hkrt.
@@ -583,7 +589,7 @@ Theorem step_order_independent cf s s' e :
   same_but_subs s s' -> same_but_subs (step cf s e) (step cf s' e).
 Proof.
   intros (H1 & H2 & H3 & H4 & H5 & H6 & H7 & Hs1 & Hs2 & H8 & H9 & H10 & Hp & Hg & H11 & H12 & H13 & H14 & H15 & H16 & H17).
-  destruct e as [m|k id|id| | |b| |v|pid|raw]; cbn [step].
+  destruct e as [m|k id|id| | |b| |v|pid|raw|]; cbn [step].
   - unfold publish. rewrite <- H1. destruct (Nat.eqb _ 0).
     + unfold same_but_subs. cbn. repeat split; try assumption; congruence.
     + rewrite !rtmp_loop_spec. rewrite <- H4, <- H5, <- H8, <- H9, <- H10, <- H11, <- H12. rewrite <- ?H13, <- ?H16, <- ?H17.
@@ -618,4 +624,7 @@ Proof.
   - unfold feed_rtp, same_but_subs. cbn. rewrite <- H14, <- H15, <- Hs1.
     repeat split; try assumption; try congruence.
     destruct (rtp_pt raw); [now apply Permutation_map|assumption].
+  - unfold same_but_subs. cbn. rewrite <- H13, <- H16. repeat split; try assumption; try congruence.
+    + constructor.
+    + apply Permutation_app; assumption.
 Qed.
